@@ -22,6 +22,7 @@
 #include <signal.h>
 #include <stdarg.h>
 #include <stdbool.h>
+#include <stddef.h>
 #include <stdint.h>
 #include <stdio.h>
 #include <stdlib.h>
@@ -1020,6 +1021,15 @@ static void emit_start(void) {
     /* (the public size constants as a caller would use them inside larger expressions) */
     fprintf(out, "{\"e\":\"Start\",\"strsize_x3\":%ld,\"strsize_rem7\":%ld,\"size_x3\":%ld,\"numwords_x3\":%ld,", (long)(3 * POLYSEED_STR_SIZE), (long)(1000 % POLYSEED_STR_SIZE),
         (long)(3 * POLYSEED_SIZE), (long)(3 * POLYSEED_NUM_WORDS));
+    /* the published order of the members of polyseed_dependency (callers fill it positionally, or were compiled against
+       the published header) */
+    fprintf(out, "\"deporder\":%s,", (offsetof(polyseed_dependency, randbytes) < offsetof(polyseed_dependency, pbkdf2_sha256)
+        && offsetof(polyseed_dependency, pbkdf2_sha256) < offsetof(polyseed_dependency, memzero)
+        && offsetof(polyseed_dependency, memzero) < offsetof(polyseed_dependency, u8_nfc)
+        && offsetof(polyseed_dependency, u8_nfc) < offsetof(polyseed_dependency, u8_nfkd)
+        && offsetof(polyseed_dependency, u8_nfkd) < offsetof(polyseed_dependency, time)
+        && offsetof(polyseed_dependency, time) < offsetof(polyseed_dependency, alloc)
+        && offsetof(polyseed_dependency, alloc) < offsetof(polyseed_dependency, free)) ? "true" : "false");
     fprintf(out, "\"strsize\":%d,\"strsizeof\":%zu,\"datasize\":%d,\"stackscan\":%s,\"charsigned\":%s",
         POLYSEED_STR_SIZE, sizeof(polyseed_str),
 #ifdef DRV_SO
@@ -1062,6 +1072,12 @@ static void run_script(FILE* in) {
             reset_all();
         }
         else if (!strcmp(op, "projection")) { want_projection = atoi(tok[1]) != 0; }
+        else if (!strcmp(op, "needle")) {
+            /* secret bytes the script knows the next call will handle (the secret inside a phrase that is going to be
+               refused, say): looked for on the dead stack after that call like the seed's own */
+            size_t n = unhex(tok[1], tmp, 64);
+            needles_windows("secret", tmp, n, 8);
+        }
         else if (!strcmp(op, "env")) {
             for (int i = 1; i < nt; ++i) {
                 if (!strncmp(tok[i], "rand=", 5)) env.rand_n = unhex(tok[i] + 5, env.rand, sizeof env.rand);
